@@ -28,9 +28,10 @@ def is_table(d):
 
 
 class Program:
-    def __init__(self, repo="/repo"):
+    def __init__(self, repo="/repo", missing=()):
         self.repo = os.path.abspath(repo)
         self.I = Interp(self.repo)
+        self.I.missing_modules = set(missing)
         self.module_names = []
         pkg = os.path.join(self.repo, "pyscsi")
         if not os.path.isdir(pkg):
@@ -49,6 +50,8 @@ class Program:
         for m in order:
             self.I.load_module(m)
         self.modules = {m: self.I.modules[m] for m in order}
+        self.load_events = list(self.I.events)
+        self.external_modules = sorted(n for n, m in self.I.modules.items() if m.external)
         self._func_index = None
 
     # -- lookups -----------------------------------------------------------
